@@ -69,11 +69,12 @@ def make_request(rng: random.Random, rid: int, ti: int, vi: int, suffix: str, ba
 def make_programme(rng: random.Random, n: int, rounds: int, cffi_fresh: int, cffi_hot: bool) -> dict:
     """n threads x rounds requests.  Round 0 is a burst of never-seen problems (the first `cffi_fresh` threads
     on the cffi back end: concurrent FFI.compile); later rounds mix hot (shared, mostly cached) problems in
-    all their variants with never-seen ones."""
+    all their variants with never-seen ones; in rounds 1 and 2 all threads call one and the same method."""
     rid = itertools.count()
     uniq = itertools.count()
     threads = [[] for _ in range(n)]
     hot_backends = ["llvm", "llvm", "cffi"] if cffi_hot else ["llvm"]
+    same = (0, 0, "llvm")
     for r in range(rounds):
         for i in range(n):
             kind = rng.choice(["evaluate", "evaluate", "method"])
@@ -81,6 +82,11 @@ def make_programme(rng: random.Random, n: int, rounds: int, cffi_fresh: int, cff
                 backend = "cffi" if i < cffi_fresh else "llvm"
                 ti = rng.randrange(len(TEMPLATES))
                 req = make_request(rng, next(rid), ti, rng.randrange(2), f"f{next(uniq)}", backend, kind)
+            elif r in (1, 2):
+                # every thread calls the SAME compiled method at once, with different inputs
+                if i == 0:
+                    same = (rng.randrange(len(TEMPLATES)), rng.randrange(2), rng.choice(hot_backends) if r == 2 else "llvm")
+                req = make_request(rng, next(rid), same[0], same[1], "h", same[2], "method" if r == 1 else "evaluate")
             elif rng.random() < 0.65:
                 ti = rng.randrange(len(TEMPLATES))
                 req = make_request(rng, next(rid), ti, rng.randrange(2), "h", rng.choice(hot_backends), kind)
